@@ -543,29 +543,35 @@ def rule_EC(ctx, fm):
     # caller
     gm = fm.func('get_magnetic_field')
     gp = au.params(gm)
-    hf = find(f'_h_ = Field({gp[1]}.grid, frequency={gp[1]}._frequency, '
-              'electric=False)', gm)
+    # value-oriented (independent of temporaries): what each argument of the
+    # kernel call stands for
+    from ..core.template import same as same_t
+    call = au.calls(gm, '_edge_curl_factor')
+    ctx.anchor(len(call) == 1 and len(call[0].args) == 10,
+               '_edge_curl_factor call with 10 arguments')
+    vals = [au.value_of(x, gm) for x in call[0].args]
+    E = gp[1]
+    hobj = [same_t(f'Field({E}.grid, frequency={E}._frequency, '
+                   f'electric=False).{c}', v) is not None
+            for c, v in zip(('fx', 'fy', 'fz'), vals[:3])]
+    hname = {ast.unparse(x.value) for x in call[0].args[:3]
+             if isinstance(x, ast.Attribute)}
     ctx.check('C09.EC.callsite', 'get_magnetic_field: magnetic field object',
-              len(hf) == 1, 'result is not a face field of the same '
-              'grid/frequency', ctx.where(fm, gm))
-    vm = find(f'_vm_ = models.VolumeModel({gp[0]}, {gp[1]})', gm)
-    zt = find(f'_z_ = _vm_.zeta / {gp[1]}.smu0', gm,
-              {'_vm_': vm[0][1]['_vm_']} if vm else None)
-    ctx.check('C09.EC.callsite', 'get_magnetic_field: zeta / (s mu0)',
-              len(vm) == 1 and len(zt) == 1,
+              all(hobj) and len(hname) == 1, 'result is not a face field of '
+              'the same grid/frequency', ctx.where(fm, gm))
+    okz = same_t(f'models.VolumeModel({gp[0]}, {E}).zeta / {E}.smu0',
+                 vals[9]) is not None
+    ctx.check('C09.EC.callsite', 'get_magnetic_field: zeta / (s mu0)', okz,
               'the factor handed to the curl kernel is not V/(mu_r s mu0)',
               ctx.where(fm, gm))
-    call = au.calls(gm, '_edge_curl_factor')
-    ctx.anchor(len(call) == 1, '_edge_curl_factor call')
-    args = [ast.unparse(x) for x in call[0].args]
-    h = hf[0][1]['_h_'] if hf else 'hfield'
-    z = zt[0][1]['_z_'] if zt else 'zeta'
-    want = [f'{h}.fx', f'{h}.fy', f'{h}.fz', f'{gp[1]}.fx',
-            f'{gp[1]}.fy', f'{gp[1]}.fz', f'{gp[1]}.grid.h[0]',
-            f'{gp[1]}.grid.h[1]', f'{gp[1]}.grid.h[2]', z]
+    args = [ast.unparse(x) for x in vals[3:9]]
+    want = [f'{E}.fx', f'{E}.fy', f'{E}.fz', f'{E}.grid.h[0]',
+            f'{E}.grid.h[1]', f'{E}.grid.h[2]']
     ctx.check('C09.EC.callsite', 'get_magnetic_field -> _edge_curl_factor',
-              args == want, f'arguments {args} are not in their roles',
-              ctx.where(fm, call[0]))
+              args == want and all(hobj) and okz,
+              f'arguments {[ast.unparse(x) for x in call[0].args]} are not '
+              'in their roles', ctx.where(fm, call[0]))
+    h = sorted(hname)[0] if hname else 'hfield'
     rets = [n for n in ast.walk(gm) if isinstance(n, ast.Return)]
     ctx.check('C09.EC.callsite', 'get_magnetic_field returns the face field',
               len(rets) == 1 and ast.unparse(rets[0].value) == h,
